@@ -294,13 +294,14 @@ func (o c14Op) global() bool {
 
 // c14OpsFor is the alphabet of one configuration.
 func c14OpsFor(cfg *c14Cfg) []c14Op {
-	all := c14Ops()
-	if cfg.Focus == "" {
-		return all
-	}
 	var ops []c14Op
-	for _, o := range all {
-		if o.global() || c14AddrNames[o.a] == cfg.Focus {
+	for _, o := range c14Ops() {
+		// a Snapshot ... RevertToSnapshot window followed by a commit needs four operations:
+		// explorations of depth 3 run without the two operations
+		if (o.kind == "snapshot" || o.kind == "revert") && cfg.Depth < 4 {
+			continue
+		}
+		if cfg.Focus == "" || o.global() || c14AddrNames[o.a] == cfg.Focus {
 			ops = append(ops, o)
 		}
 	}
@@ -1155,7 +1156,7 @@ func (x *c14Sys) Key() string { return x.key }
 var c14AfterIR = []string{"AddBalance(C,1)", "SetState(A,s0,3)", "SetState(A,s0,1)", "IntermediateRoot"}
 
 func c14Configs(r *mc.R) []*c14Cfg {
-	deep, shallow := mc.Pick(r, 4, 5), mc.Pick(r, 3, 5)
+	deep, shallow, minor := mc.Pick(r, 4, 5), mc.Pick(r, 3, 5), mc.Pick(r, 3, 4)
 	return []*c14Cfg{
 		{Name: "hash+snapshot", Depth: deep, Snap: true},
 		{Name: "path", Depth: shallow, Path: true},
@@ -1171,11 +1172,11 @@ func c14Configs(r *mc.R) []*c14Cfg {
 		{Name: "path@C-deployed-this-tx", Depth: deep, Path: true, Focus: "C", Prefix: []string{"Create(C)", "SetCode(C,c3)"}},
 		{Name: "hash+snapshot@C-deployed-earlier-tx", Depth: deep, Snap: true, Focus: "C", Prefix: []string{"Create(C)", "SetCode(C,c3)", "EndTx"}},
 		{Name: "path@A-recreated-with-code", Depth: deep, Path: true, Focus: "A", Prefix: []string{"SelfDestruct(A)", "EndTx", "Create(A)", "SetCode(A,c3)"}},
-		{Name: "path/cancun", Depth: shallow, Path: true, Cancun: true},
-		{Name: "hash", Depth: shallow, Path: false},
-		{Name: "hash+snapshot/cancun", Depth: shallow, Snap: true, Cancun: true},
-		{Name: "path+prefetcher", Depth: shallow, Path: true, Prefetch: true},
-		{Name: "hash+snapshot+prefetcher", Depth: shallow, Snap: true, Prefetch: true},
+		{Name: "path/cancun", Depth: minor, Path: true, Cancun: true},
+		{Name: "hash", Depth: minor, Path: false},
+		{Name: "hash+snapshot/cancun", Depth: minor, Snap: true, Cancun: true},
+		{Name: "path+prefetcher", Depth: minor, Path: true, Prefetch: true},
+		{Name: "hash+snapshot+prefetcher", Depth: minor, Snap: true, Prefetch: true},
 	}
 }
 
